@@ -98,6 +98,7 @@ class Interp:
         self.spec_env_extra = {}
         self.hyp = []
         self.ext_returns = []
+        V.OBJREG.clear()
         self.trace_base = 0        # clauses of a callee evaluated at a call site see only the events it emits
         self.callsites = {}        # (callee, line) -> [reached, normal return feasible]
         self.dmap_keys = {}        # Ref -> key terms used on this path (for model concretisation)
@@ -191,6 +192,8 @@ class Interp:
             return VTuple([self.const(x) for x in v])
         if isinstance(v, Val):
             return v
+        if isinstance(v, Obj):
+            return VObj(v)
         raise Unsupported("constant %r" % (v,))
 
     def new_list(self, items, name="list"):
@@ -496,7 +499,12 @@ class Interp:
                 return z3.BoolVal(False)
             return z3.And([self.eq(x, y) for x, y in zip(a.items, b.items)] + [z3.BoolVal(True)])
         if t == "obj":
-            return z3.BoolVal(a.ref is b.ref)
+            if a.ref is b.ref:
+                return z3.BoolVal(True)
+            ta, tb = getattr(a.ref, "term", None), getattr(b.ref, "term", None)
+            if ta is not None and tb is not None and (a.ref.name.startswith("elem[") or b.ref.name.startswith("elem[")):
+                return ta == tb      # elements read back from an abstract sequence may be the same object
+            return z3.BoolVal(False)
         if t in ("list", "dict", "set"):
             if a.ref is b.ref:
                 return z3.BoolVal(True)
@@ -723,6 +731,16 @@ class Interp:
             return VFn("builtin", name=name)
         if name in ("True", "False", "None"):
             return self.const({"True": True, "False": False, "None": None}[name])
+        # module-level literal constant of the file the function lives in (read from the real source)
+        fc0 = self.frames[-1].fc if self.frames else None
+        if fc0 is not None and fc0.file and name.isupper():
+            from . import extract
+            try:
+                node = extract.module_constant(fc0.file, name)
+                if isinstance(node, ast.Constant):
+                    return self.const(node.value)
+            except extract.ExtractError:
+                pass
         if self.spec_depth:
             raise SpecError("unknown name %r in contract clause" % name)
         raise Unsupported("unknown name %r" % name)
@@ -776,6 +794,8 @@ class Interp:
             return z3.is_true(v.t)
         if v.tag == "none":
             return None
+        if v.tag == "obj":
+            return v.ref
         if v.tag == "tuple":
             xs = [self.pyconst(x) for x in v.items]
             if any(x is MISSING for x in xs):
@@ -1353,6 +1373,12 @@ class Interp:
         fc = self.cset.fns.get(name + ".__init__") or self.cset.fns.get(name)
         if fc is not None and fc.model is not None:
             return fc.model(self, args, kwargs)
+        if fc is not None and fc.inline and name in self.cset.classes:
+            self.ctx.fresh_n += 1
+            o = Obj(name, ObjS(name, {}), "new_%s#%d" % (name, self.ctx.fresh_n))
+            o.fresh = True
+            self.call_contract(fc, VObj(o), args, kwargs, node)
+            return VObj(o)
         raise Unsupported("constructor %s" % name)
 
     def call_closure(self, fn, args, kwargs):
@@ -1788,7 +1814,7 @@ class Interp:
                 self.call_contract(fc, base, [v], {}, t)
                 return
             if self.field_shape(base.ref, t.attr) is None and (base.ref, t.attr) not in self.heap.data \
-                    and base.ref.shape is not None:
+                    and base.ref.shape is not None and not getattr(base.ref, "fresh", False):
                 raise Unsupported("assignment to undeclared field %s.%s" % (base.ref.name, t.attr))
             self.write_field(base.ref, t.attr, v)
         elif isinstance(t, ast.Subscript):
